@@ -60,6 +60,7 @@ type PackageReport struct {
 	ModelOps int              `json:"model_ops"`
 	Restarts int              `json:"driver_restarts"`
 	RunSec   float64          `json:"run_seconds"`
+	Rounds   int              `json:"rounds_completed"` // full passes over the package's records within the time budget
 }
 
 type c09entry struct {
@@ -171,6 +172,7 @@ func (e *engine) runPlain(j job, budget time.Duration, jobSeed int64) {
 	e.coll.merge(r.stats)
 	e.mu.Lock()
 	e.pkgs[idx].DrvOps = drv.Ops
+	e.pkgs[idx].Rounds = r.roundsDone
 	if mdl != nil {
 		e.pkgs[idx].ModelOps = mdl.Ops
 	}
@@ -485,7 +487,7 @@ func main() {
 
 	// ---- plan ----
 	rng := rand.New(rand.NewSource(*seed))
-	budget := 110 * time.Second
+	budget := 150 * time.Second
 	nRandom, nPairs := 1, 0
 	var gridSets, randSets, pairSets []pkgbuild.Options
 	pick2 := func() []pkgbuild.Options {
